@@ -661,7 +661,18 @@ Proof.
   - destruct (o_step m op) as [m1| | | |] eqn:E; try exact I.
     destruct (step_growth m op m1 E) as (G1 & G2 & G3).
     apply IH; [lia|exact Hr| |lia].
-    nia.
+    (* the budget of the remaining calls: products abstracted, the rest is linear *)
+    remember (Z.of_nat (length (o_data m1))) as a1. remember (Z.of_nat (length (o_data m))) as a.
+    remember (Z.of_nat (o_depth m1)) as d1. remember (Z.of_nat (o_depth m)) as d.
+    remember (Z.of_nat (length r)) as n. remember (Z.of_nat (ops_extra r)) as x. remember (Z.of_nat (op_extra op)) as y.
+    assert (G1z : (a1 <= a + 2 * d + y + 6)%Z) by lia. assert (G2z : (d1 <= d + 1)%Z) by lia.
+    assert (Hn : (0 <= n)%Z) by lia. assert (Hd0 : (0 <= d)%Z) by lia. assert (Hd1 : (0 <= d1)%Z) by lia.
+    replace (Z.of_nat (S (length r))) with (n + 1)%Z in Hd by lia.
+    replace (Z.of_nat (op_extra op + ops_extra r)) with (y + x)%Z in Hd by lia.
+    replace ((n + 1) * (2 * (d + (n + 1)) + 6))%Z with (n * (2 * (d + 1 + n) + 6) + (2 * (d + 1 + n) + 6))%Z in Hd by ring.
+    assert (Hm : (n * (2 * (d1 + n) + 6) <= n * (2 * (d + 1 + n) + 6))%Z) by (apply Z.mul_le_mono_nonneg_l; lia).
+    remember (n * (2 * (d1 + n) + 6))%Z as P1. remember (n * (2 * (d + 1 + n) + 6))%Z as P.
+    lia.
 Qed.
 
 Lemma run_growth : forall ops m m1, o_run m ops = Ok m1 ->
